@@ -3,7 +3,8 @@
 
   Mirrors  discopy/quantum/gates.py  (GATES table 551-565, QuantumGate 21-46, Ket/Bra 203-256,
            Controlled 259-287, Rotation 348-362, Rx/Ry/Rz/CU1/CRz/CRx `.array` 381-490,
-           Scalar 505-531, rewire 568-603),
+           Scalar 518-558, Sqrt 567-575, rewire 581-616),
+           discopy/quantum/circuit.py:244-253 (the calling conventions of `Circuit.eval`) and 657-664 (`Sum.eval`),
            discopy/quantum/circuit.py (pure `eval` 251-253: tensor.Functor with `ar = f.array`),
            discopy/tensor.py:356-361 (how `is_dagger` is honoured),
            discopy/quantum/zx.py (spiders, Had, scalar, dagger 282/330/354, gate2zx 368-396).
@@ -266,6 +267,10 @@ def f17Fixed : Bool := true
 def f2Fixed : Bool := true
 /-- F7: `gate2zx` of CRz / CRx / CU1 (zx.py:376-384). -/
 def f7Fixed : Bool := true
+/-- F4k: `Scalar.__init__` (gates.py:524) decides "self-adjoint" (`_dagger = None`) on the stored
+    `data`, `Sqrt` inherits it although its value is `data ** .5`: `sqrt(x).dagger()` is `sqrt(x)` itself
+    for a NEGATIVE real `x`, whose value `i√|x|` is not real.  `false` = /repo as it is. -/
+def f4kFixed : Bool := false
 
 def arrY : M8 := if f17Fixed then arrYFixed else arrYAsIs
 def ry {R : Type} [Neg R] (c s : R) : Mat R := if f17Fixed then ryFixed c s else ryAsIs c s
@@ -332,6 +337,11 @@ inductive Gate where
   | bra (bs : List Bool)
   | swap
   | scalar (z : Cyc8)
+  /-- `Sqrt(z)` = the exported `sqrt(z)` (gates.py:567-575, 633-635): stored `data = z`, value `z ** .5`.  ℤ[ζ₈][1/2] is
+      not closed under square roots, so the value `r` of `z ** .5` (the principal root) is GIVEN with the
+      box; `Gate.sqrtExact` says that it is a root.  The harness checks on every run that discopy's
+      `data ** .5` is this `r`. -/
+  | sqrt (z r : Cyc8)
   deriving Repr
 
 /-- `GATES` (gates.py:565) `[SWAP, CZ, CX, H, S, T, X, Y, Z]` with their names; `CX = Controlled(X)`. -/
@@ -370,10 +380,10 @@ def basisVec (bs : List Bool) : List Cyc8 :=
 
 def Gate.dom : Gate → Nat
   | .q g => g.nq | .rot k _ => k.nq | .ctrl g => g.dom + 1 | .ket _ => 0 | .bra bs => bs.length
-  | .swap => 2 | .scalar _ => 0
+  | .swap => 2 | .scalar _ => 0 | .sqrt _ _ => 0
 def Gate.cod : Gate → Nat
   | .q g => g.nq | .rot k _ => k.nq | .ctrl g => g.cod + 1 | .ket bs => bs.length | .bra _ => 0
-  | .swap => 2 | .scalar _ => 0
+  | .swap => 2 | .scalar _ => 0 | .sqrt _ _ => 0
 
 /-- `is_dagger` (cat.py:565-569): the `_dagger` attribute; truthy only for a flagged `QuantumGate`.
     `Controlled`, rotations, kets, bras, swaps and scalars are never flagged. -/
@@ -393,9 +403,28 @@ def Gate.arrayW (fix2 : Bool) : Gate → M8
   | .bra bs => (basisVec bs).map ([·])
   | .swap => swapMat
   | .scalar z => [[z]]
+  | .sqrt _ r => [[r]]                                       -- gates.py:573-575 `[self.data ** .5]`
+
+/-- `Scalar.__init__`, gates.py:524: `_dagger = None if data.conjugate() == data else False`, evaluated on
+    the stored `data` — for `Sqrt` too (`Sqrt.__init__` calls it with `data`, gates.py:569-570).
+    `fix = true`: the proposed repair of F4k — decided on the VALUE `array[0]`. -/
+def sqrtSelfAdjointW (fix : Bool) (z r : Cyc8) : Bool := if fix then r.conj == r else z.conj == z
+def sqrtSelfAdjoint (z r : Cyc8) : Bool := sqrtSelfAdjointW f4kFixed z r
+
+/-- `Scalar.dagger` inherited by `Sqrt` (gates.py:556-558):
+    `self if self._dagger is None else Scalar(self.array[0].conjugate())` — a plain `Scalar` holding the
+    conjugate of the VALUE (the root), not of the data. -/
+def sqrtDaggerW (fix : Bool) (z r : Cyc8) : Gate :=
+  if sqrtSelfAdjointW fix z r then .sqrt z r else .scalar r.conj
+
+/-- "`z` is given with an exact root". -/
+def Gate.sqrtExact : Gate → Bool
+  | .sqrt z r => r * r == z
+  | _ => true
 
 /-- The dagger mechanisms: flag (gates.py:43), negated phase (361), rebuilt controlled gate (286),
-    Ket ↔ Bra (225, 253), Swap (circuit.py:670), conjugated scalar (gates.py:529). -/
+    Ket ↔ Bra (225, 253), Swap (circuit.py:670), conjugated scalar (gates.py:556-558; for a `Scalar`
+    `array[0]` is the data, and `self` is returned exactly when conjugation changes nothing). -/
 def Gate.dagger : Gate → Gate
   | .q g => .q g.dagger
   | .rot k n => .rot k (-n)
@@ -404,6 +433,7 @@ def Gate.dagger : Gate → Gate
   | .bra bs => .ket bs
   | .swap => .swap
   | .scalar z => .scalar z.conj
+  | .sqrt z r => sqrtDaggerW f4kFixed z r
 
 /-- Pure evaluation of one box, tensor.py:356-361:
     `if box.is_dagger: return self(box.dagger()).dagger()` else the array. -/
@@ -429,7 +459,36 @@ def evalCirc (n : Nat) (c : Circ) : M8 := evalCircFrom (idQ n) c
 /-- `Circuit.dagger`: reversed layers, each box daggered (cat.py:214-231). -/
 def Circ.dagger (c : Circ) : Circ := c.reverse.map fun (l, g, r) => (l, g.dagger, r)
 
-/-! ### rewire (gates.py:568-603) -/
+/-! ### the calling conventions of `Circuit.eval` on the numpy route (`backend is None`)
+
+    circuit.py:247-253
+        if backend is None:
+            if others:
+                return [circuit.eval(mixed=mixed, **params) for circuit in (self, ) + others]
+            functor = cqmap.Functor() if mixed or self.is_mixed else tensor.Functor(...)
+            return functor(self)
+    What matters for C11 is WHICH functor evaluates each circuit of a call: `true` = `cqmap.Functor`
+    (the result is a `CQMap`), `false` = `tensor.Functor` (the result is the `Tensor` of `evalCirc`).
+    A circuit is represented by its `is_mixed` flag. -/
+
+/-- circuit.py:251 for one circuit evaluated with the keyword `mixed=flag`. -/
+def evalMode1 (flag isMixed : Bool) : Bool := flag || isMixed
+
+/-- circuit.py:248-253: `self.eval(*others, mixed=flag)`; every circuit of a batch is evaluated by its
+    OWN `circuit.eval(mixed=flag)` (line 249), the receiver included. -/
+def evalModes (flag selfMixed : Bool) (others : List Bool) : List Bool :=
+  if others.isEmpty then [evalMode1 flag selfMixed] else (selfMixed :: others).map (evalMode1 flag)
+
+/-- `Sum.eval(mixed=flag)`, circuit.py:657-664: `mixed = mixed or any(t.is_mixed for t in self.terms)`, then
+    no term → `0` (`none`), one term → its own `eval`, else the batch `Circuit.eval(*terms, mixed=mixed)`
+    summed up: all terms are evaluated by the same functor, so that they can be added. -/
+def sumModes (flag : Bool) (terms : List Bool) : Option (List Bool) :=
+  match terms with
+  | [] => none
+  | [t] => some [evalMode1 (flag || terms.any id) t]
+  | t :: rest => some (evalModes (flag || terms.any id) t rest)
+
+/-! ### rewire (gates.py:581-616) -/
 
 /-- Matrix of the wire permutation "wire `i` goes to position `perm[i]`" on `n` qubits
     (`Box.permutation`, monoidal.py:517-545; its correctness is property C10): input basis state
@@ -549,6 +608,7 @@ def gate2zx (fixed : Bool) : Gate → Except Err ZXDiag
     else .ok [(.z 1 2 n, 0), (.z 1 2 n, 2), (.x 2 1 0, 1), (.z 1 0 (-n), 1)]
   | .rot .Ry _ => .error .index
   | .scalar z => .ok [(.scalar z, 0)]
+  | .sqrt z _ => .ok [(.scalar z, 0)]        -- zx.py:397-400 `scalar(box.data)`: the DATA, not the root
   | .swap => .ok [(.swap, 0)]
   | .q g =>
     if g.dg == some true then
